@@ -45,11 +45,16 @@ def rebuild(obj, depth=0):
         return type(obj)((key, rebuild(value, depth + 1)) for key, value in obj.items())
     cls = type(obj)
     if cls.__module__.startswith('cryptoparser.') and attr.has(cls):
+        names = {field.name for field in attr.fields(cls)}
+        if set(getattr(obj, '__dict__', ())) - names:
+            raise NotRebuildable('%s keeps state outside its attrs fields' % cls.__name__)
         keywords = {}
         for field in attr.fields(cls):
             if field.init:
                 keywords[field.name.lstrip('_')] = rebuild(getattr(obj, field.name), depth + 1)
         return cls(**keywords)
+    if cls.__module__.startswith('cryptoparser.') and not isinstance(obj, type):
+        raise NotRebuildable('%s is not an attrs class' % cls.__name__)
     return obj        # foreign values (datetime, ipaddress, asn1crypto, cryptodatahub keys): shared, never edited here
 
 
@@ -128,3 +133,47 @@ def nested_edits(obj, rng, limit=2):
             continue        # frozen class / validating setter refuses: not an edit the library lets a caller make
         done.append('%s[%d].%s: %d -> %d' % (type(vector).__name__, index, name, len(value), len(new)))
     return done
+
+
+def swap_field(obj, donor, rng):
+    """Assign one constructor field of obj the value the donor (another object of the same class) holds for it - the way
+    a caller reuses an object with a new key / name / list.  Returns a description or None."""
+    import copy  # pylint: disable=import-outside-toplevel
+    cls = type(obj)
+    if type(donor) is not cls or not attr.has(cls) or isinstance(obj, _array_base()):
+        return None          # a vector is edited through its sequence interface (C12), not by swapping its item list
+    names = []
+    for field in attr.fields(cls):
+        if not field.init or field.name.startswith('_'):
+            continue
+        mine, theirs = getattr(obj, field.name, None), getattr(donor, field.name, None)
+        if mine is None or theirs is None or type(mine) is not type(theirs):
+            continue
+        try:
+            if mine == theirs:
+                continue
+        except Exception:  # pylint: disable=broad-except
+            continue
+        names.append(field.name)
+    if not names:
+        return None
+    name = rng.choice(sorted(names))
+    try:
+        value = copy.deepcopy(getattr(donor, name))
+    except Exception:  # pylint: disable=broad-except
+        value = getattr(donor, name)
+    try:
+        setattr(obj, name, value)
+    except Exception:  # pylint: disable=broad-except
+        return None
+    return '%s.%s: replaced by the value of another instance' % (cls.__name__, name)
+
+
+def state_without_cached_sizes(value):
+    """lib.dump(value) with the vectors' cached byte counters removed (they legitimately differ between an object
+    edited in place and its rebuilt twin)."""
+    if isinstance(value, dict):
+        return {key: state_without_cached_sizes(item) for key, item in value.items() if key not in ('_items_size', 'recorded_size')}
+    if isinstance(value, list):
+        return [state_without_cached_sizes(item) for item in value]
+    return value
